@@ -25,8 +25,21 @@ Clauses(c) ==
        ELSE <<>>)
    \o (IF o2 # o THEN <<"C08.idempotent">> ELSE <<>>)
 
+\* a case in run-length coding: c.rle = <<value, length>> per maximal run of the input, c.kept / c.kept2 = number of TRUE elements of the
+\* output (and of the second call's output) inside each of those runs, c.n_out = length of the output
+ClausesRLE(c) ==
+  LET r == c.rle  want == KeptPerRun(r, c.m)
+      total == FoldLeft(LAMBDA acc, x : acc + x[2], 0, r) IN
+      (IF c.n_out = total THEN <<>> ELSE <<"C08.length">>)
+   \o (IF Len(c.kept) # Len(r) THEN <<"C08.length">>
+       ELSE IF c.kept = want THEN <<>>
+       ELSE IF \E k \in 1 .. Len(r) : ~r[k][1] /\ c.kept[k] > 0 THEN <<"C08.false_to_true">>
+       ELSE IF \E k \in 1 .. Len(r) : c.kept[k] > want[k] THEN <<"C08.short_run_kept">>
+       ELSE <<"C08.long_run_cleared">>)
+   \o (IF c.kept2 # c.kept THEN <<"C08.idempotent">> ELSE <<>>)
+
 Check == /\ stage = "call"
-         /\ fails' = Clauses(Cases[tid])
+         /\ fails' = (IF "rle" \in DOMAIN Cases[tid] THEN ClausesRLE(Cases[tid]) ELSE Clauses(Cases[tid]))
          /\ PrintT(<<"VERDICT", tid, fails'>>)
          /\ stage' = "done"
          /\ UNCHANGED tid
